@@ -47,13 +47,14 @@ def materialise_shuffled(tree, root, rng):
             os.symlink(node[1], p)
 
 
-def impl_dir(parent, name, patterns):
+def impl_dir(parent, name, patterns, follow=False):
     import in_toto.runlib as rl
     cwd = os.getcwd()
     try:
         os.chdir(parent)
         try:
-            r = rl.record_artifacts_as_dict(["dir:" + name], exclude_patterns=patterns or None)
+            kw = {"follow_symlink_dirs": True} if follow else {}
+            r = rl.record_artifacts_as_dict(["dir:" + name], exclude_patterns=patterns or None, **kw)
             return {"ok": sorted([k, v["sha256"]] for k, v in r.items())}
         except Exception as e:  # pylint: disable=broad-except
             return {"err": type(e).__name__}
@@ -61,7 +62,7 @@ def impl_dir(parent, name, patterns):
         os.chdir(cwd)
 
 
-def model_dir(tree, name, patterns):
+def model_dir(tree, name, patterns, follow=False):
     import in_toto.settings as st
     eff = patterns or list(st.ARTIFACT_EXCLUDE_PATTERNS)
     top = ("d", tree)
@@ -70,28 +71,38 @@ def model_dir(tree, name, patterns):
     top = top[1]
     cands = T.candidate_paths(top, ["dir:" + name, "."])
     m = core.driver().call({"op": "record", "root": T.model_node(top, top), "artifacts": ["dir:" + name],
-                            "excl": T.exclusion_table(eff, cands), "follow": False, "normalize": False, "lstrip": []})
+                            "excl": T.exclusion_table(eff, cands), "follow": bool(follow), "normalize": False, "lstrip": []})
     if "ok" in m:
         return {"ok": sorted([k, hashlib.sha256(v["text"].encode("utf8")).hexdigest()] for k, v in m["ok"])}, m
     return m, m
 
 
-def documented_digest(tree, patterns):
+def documented_digest(tree, patterns, follow=False):
     """sha256 of the lines '<sha256 of file>  <relative path>' in byte order of the paths."""
     import in_toto.settings as st
     eff = patterns or list(st.ARTIFACT_EXCLUDE_PATTERNS)
-    ref = T.reference_record(tree, ["."], eff, False, False, [])
+    ref = T.reference_record(tree, ["."], eff, bool(follow), False, [])
     lines = sorted(((p.encode("utf8"), h) for p, h in ref[1].items()))
     text = b"".join(h.encode() + b"  " + p + b"\n" for p, h in lines)
     return hashlib.sha256(text).hexdigest(), ref[1]
 
 
-def one_case(rng, res):
+def one_case(rng, res, degenerate=None):
     tree = gen_dir_tree(rng)
+    if degenerate == "empty":
+        tree = {}
+    elif degenerate == "empty_subdirs":
+        tree = {"sub": ("d", {"deep": ("d", {})}), "lib": ("d", {})}
+    elif degenerate == "all_excluded":
+        tree = {"a.pyc": ("f", b"x"), "sub": ("d", {"m.pyc": ("f", b"y")})}
     # patterns apply to paths relative to the recorded directory: anchored ones (a slash at the start or inside) and
     # ones that match a component of the directory's own location tell "relative to the directory" from anything else
     patterns = rng.choice([[], [], [], ["*.pyc"], ["sub"], ["*.txt"], ["sub/deep"], ["/a"], ["/bar.txt", "/lib"], ["deep/*"],
                            ["build"], ["loc*"], ["lib/**/x y"], ["build/"], ["sub/"], ["**/cache/"]])
+    if degenerate == "all_excluded":
+        patterns = ["*.pyc"]
+    elif degenerate:
+        patterns = []
     if patterns and patterns[0].endswith("/"):
         # a pattern with a trailing slash names directories only: a regular file of that name (here: a script next to
         # the output directory it produces) is not excluded by it
@@ -103,6 +114,16 @@ def one_case(rng, res):
             tree["tools"] = tools = ("d", {})
         tools[1][nm] = ("f", b"#!/bin/sh\nmake\n")
     name = rng.choice(["d", "my dir", "ü", "loc/build/out", "build", "x~/d"])
+    # symlinks inside the directory (to files, to directories, dangling; two names for one directory), recorded as
+    # in_toto_run records (symlinked directories followed) or as the plain library call does (not followed)
+    follow = False
+    if not degenerate and rng.random() < 0.35:
+        T.add_symlinks(rng, tree, rng.randrange(1, 4))
+        if rng.random() < 0.6 and "v2" not in tree:
+            tree["v2"] = ("d", {"lib.so": ("f", b"so%d" % rng.randrange(9)), "inc": ("d", {"h.h": ("f", b"h")})})
+            tree["latest"] = ("l", "v2")
+            tree[rng.choice(["stable", "a-first", "zz-last"])] = ("l", "v2")
+        follow = rng.random() < 0.7
     variants = [("base", tree)]
     t2, edits = c19.edit_tree(rng, tree)
     variants.append(("edited:" + ",".join(edits), t2))
@@ -112,13 +133,14 @@ def one_case(rng, res):
         d = tempfile.mkdtemp(prefix="verif-c20-")
         try:
             materialise_shuffled(t, os.path.join(d, name), rng)
-            i = impl_dir(d, name, patterns)
+            i = impl_dir(d, name, patterns, follow)
         finally:
             shutil.rmtree(d, ignore_errors=True)
-        m, _raw = model_dir(t, name, patterns)
+        m, _raw = model_dir(t, name, patterns, follow)
         agreed = i == m
-        exp, entries = documented_digest(t, patterns)
-        desc = {"variant": label, "patterns": patterns, "n_files": len(entries), "dir": name}
+        exp, entries = documented_digest(t, patterns, follow)
+        desc = {"variant": label, "patterns": patterns, "n_files": len(entries), "dir": name, "follow_symlink_dirs": follow,
+                "symlinks": T.contains_link(("d", t))}
         full = {"op": "dir_digest", "desc": desc, "tree": T.to_jsonable(t)}
         res.case({"desc": desc, "impl": i}, len(entries) >= 2, agreed, sample_cap=2)
         res.count("variant_" + label.split(":")[0])
@@ -298,6 +320,10 @@ def shard(seed, idx, n, tier):
     rng = core.rng_for(seed, "c20", idx)
     for _ in range(n):
         one_case(rng, res)
+    if idx < 3:
+        # a directory without a single recorded file (empty, only empty sub-directories, everything excluded): the
+        # digest of zero lines; adding a file changes it
+        one_case(rng, res, degenerate=["empty", "empty_subdirs", "all_excluded"][idx])
     for _ in range(max(1, n // 2)):
         one_ostree(rng, res)
     return res
@@ -337,11 +363,12 @@ def replay(case):
     d = tempfile.mkdtemp(prefix="verif-c20-")
     try:
         materialise_shuffled(t, os.path.join(d, name), random.Random(0))
-        i = impl_dir(d, name, patterns)
+        follow = bool(case["desc"].get("follow_symlink_dirs"))
+        i = impl_dir(d, name, patterns, follow)
     finally:
         shutil.rmtree(d, ignore_errors=True)
-    m, _raw = model_dir(t, name, patterns)
-    exp, entries = documented_digest(t, patterns)
+    m, _raw = model_dir(t, name, patterns, follow)
+    exp, entries = documented_digest(t, patterns, follow)
     return {"impl": i, "model": m, "documented_digest": exp, "entries": sorted(entries)}
 
 
